@@ -269,6 +269,12 @@ pub struct World<'a> {
     pub detected: bool,
     pub connect_started_ms: Option<u64>,
     pub c18_done: bool,
+    pub c18_second_life: bool,
+    pub c18_break_at_ms: Option<u64>,
+    pub c18_break_on_ping: bool,
+    pub c18_break_pending: bool,
+    pub c18_broke: bool,
+    pub c18_break_reported: bool,
     pub end_ms: u64,
     pub nontrivial_marks: u32,
     pub pending_manual: Vec<(u8, u16)>,
@@ -1130,6 +1136,10 @@ impl<'a> World<'a> {
             Pk::PingReq => {
                 self.rep.probe("ping_sent");
                 self.c18_on_ping(idx, now);
+                if self.c18_break_pending {
+                    self.c18_break(idx, now);
+                    return;
+                }
                 if self.silent {
                     return;
                 }
@@ -1488,6 +1498,17 @@ impl<'a> World<'a> {
         } else {
             *self.ch.choose(&[0u64, 0, 0, 0, 1, 5, 50])
         };
+        // an honest broker answers the CONNECT promptly: while the handshake
+        // is under way the script gets its turn every millisecond
+        if self.is(P::C18)
+            && !self.established
+            && matches!(
+                self.cfg.c18,
+                C18Mode::Answer | C18Mode::Silent | C18Mode::SilentHalfOpen | C18Mode::SilentStalled | C18Mode::Zero
+            )
+        {
+            ms = ms.min(1);
+        }
         if let Some(d) = due {
             // land exactly on the next script deadline (+1 ms for windows so
             // that "now >= deadline" holds)
@@ -2030,6 +2051,12 @@ impl<'a> World<'a> {
             detected: false,
             connect_started_ms: None,
             c18_done: false,
+            c18_second_life: false,
+            c18_break_at_ms: None,
+            c18_break_on_ping: false,
+            c18_break_pending: false,
+            c18_broke: false,
+            c18_break_reported: false,
             end_ms: u64::MAX,
             nontrivial_marks: 0,
             pending_manual: Vec::new(),
